@@ -15,6 +15,7 @@ from asyncio import (
 from typing import TYPE_CHECKING, Any, NamedTuple, cast
 
 from ...pyutils.is_awaitable import is_awaitable
+from .work_queue import cancel_work
 
 if TYPE_CHECKING:
     from asyncio import Task
@@ -183,10 +184,48 @@ class StreamItemQueue:
     def abort(self, reason: BaseException | None = None) -> Awaitable[None] | None:
         """Abort the stream with an optional reason.
 
-        Cancels the producer and the pending item futures and returns an
-        awaitable for the asynchronous part of the cleanup, or None when the
-        whole cleanup could be run synchronously.
+        Cancels the producer and the pending item futures, discards the results
+        that have not been delivered yet, and returns an awaitable for the
+        asynchronous part of the cleanup, or None when the whole cleanup could
+        be run synchronously.
         """
+        cleanup = self._abort(reason)
+        discarded: list[Awaitable[Any]] = []
+        self._discard_entries(reason, discarded)
+        if not discarded:
+            return cleanup
+        if cleanup is not None:
+            discarded.append(cleanup)
+
+        async def settle_discarded() -> None:
+            await gather(*discarded, return_exceptions=True)
+
+        return settle_discarded()
+
+    def _discard_entries(
+        self, reason: BaseException | None, cancel_awaitables: list[Awaitable[Any]]
+    ) -> None:
+        """Discard the buffered results, cancelling the work they have produced.
+
+        Results that have been settled, but not delivered yet, may report nested
+        streams and deferred fragments that nobody else knows about.
+        """
+        entries = self._entries
+        while True:
+            try:
+                entry = entries.get_nowait()
+            except QueueEmpty:
+                break
+            if isfuture(entry):
+                # also retrieve the exception of a failed item future
+                if not entry.done() or entry.cancelled() or entry.exception():
+                    continue
+                entry = entry.result()
+            if entry is not _END and not isinstance(entry, _ErrorEntry):
+                cancel_work(entry.work, reason, cancel_awaitables)
+
+    def _abort(self, reason: BaseException | None = None) -> Awaitable[None] | None:
+        """Cancel the producer and the pending item futures and clean up."""
         producer_task = self._producer_task
         running = producer_task is not None and not producer_task.done()
         parked = running and self._producer_parked and not self._producer_cancelled
